@@ -98,7 +98,7 @@ PROPS = {
             {"name": "TestC03Sweep", "kind": "plain", "shards": {"quick": 1, "thorough": 3}},
         ],
         "fuzz": [{"name": "FuzzC03AnyBytes", "time": "150s"}],
-        "rule": "cases = random bytes (0..64), mutated valid streams (bit flips, substitutions, insertions, deletions, truncation), valid streams cut at a drawn byte, synthesised streams with one injected fault at a drawn block (distance beyond data produced, unassigned distance code, distance code used with none declared, over-subscribed lit/dist/code-length code, incomplete lit/len code, missing end-of-block code, repeat with nothing to repeat, run past the declared count, stored LEN!=~NLEN, reserved block type, length symbols 286/287, distance symbols 30/31, HLIT>29, and distance code lengths given literally: any multiset, complete, incomplete or over-subscribed, mostly long codes) usually followed by a long tail; placed first in a fresh Reader or after 1-3 earlier uses through Reset; x Read sizes x source chunking; plus every truncation point of fixed small valid streams (exhaustive); plus every multiset of distance code lengths over 11..15 with exactly 30 codes and every 31st of those with fewer (all 324631 in the thorough tier); plus a back-reference reaching one or two bytes before the output start at produced counts around 1, 255, 4096, 32768, 65536. "
+        "rule": "cases = random bytes (0..64), mutated valid streams (bit flips, substitutions, insertions, deletions, truncation), valid streams cut at a drawn byte, synthesised streams with one injected fault at a drawn block (distance beyond data produced, unassigned distance code, distance code used with none declared, over-subscribed lit/dist/code-length code, incomplete lit/len code, missing end-of-block code, repeat with nothing to repeat, run past the declared count, stored LEN!=~NLEN, reserved block type, length symbols 286/287, distance symbols 30/31, HLIT>29, HDIST>29, run-past-count through symbol 16, 17 or 18 (optionally after cutting the item list, so that the run starts in the literal/length part), literal/length code lengths given literally (any multiset over up to 286 symbols), and distance code lengths given literally: any multiset, complete, incomplete or over-subscribed, mostly long codes) usually followed by a long tail; placed first in a fresh Reader or after 1-3 earlier uses through Reset; x Read sizes x source chunking; plus every truncation point of fixed small valid streams (exhaustive); plus every multiset of distance code lengths over 11..15 with exactly 30 codes and every 31st of those with fewer (all 324631 in the thorough tier); plus a back-reference reaching one or two bytes before the output start at produced counts around 1, 255, 4096, 32768, 65536. "
                 "Oracle: no panic; terminates (livelock bound + watchdog); bytes handed out are a prefix of the reference inflater's output; io.EOF only if the (permissive) reference judges the input to begin with a complete stream and all its bytes were delivered, and always if compress/flate accepts; constructed prefixes end in io.ErrUnexpectedEOF; a defect with >=400 input bytes after it ends in CorruptInputError; the error repeats on later Reads. "
                 "Non-trivial = reference verdict is not VALID and the defect/truncation lies after the first complete block header.",
         "assumptions": COMMON_ASSUME,
